@@ -192,11 +192,14 @@ def check(run, replay=None):
     if not ok:
         run.finding("build:ocaml", "broken-obligation", msg, {})
         return
-    exe = os.path.join(C.build_dir(), "c07")
-    okc, cmd, log = C.cxx(os.path.join(C.HARNESS, "c07_storage.cpp"), exe, "-O0 -g -w -fsanitize=address,undefined -fno-sanitize-recover=all")
-    if not okc:
-        run.finding("build:c07", "broken-obligation", "cannot build the harness: " + log[-600:], {"cmd": cmd})
-        return
+    exes = []
+    for tag, fl in (("rank1", ""), ("rank2", "-DC07_RANK2")):
+        exe = os.path.join(C.build_dir(), "c07_" + tag)
+        okc, cmd, log = C.cxx(os.path.join(C.HARNESS, "c07_storage.cpp"), exe, "-O0 -g -w -fsanitize=address,undefined -fno-sanitize-recover=all " + fl)
+        if not okc:
+            run.finding("build:c07:" + tag, "broken-obligation", "cannot build the harness: " + log[-600:], {"cmd": cmd})
+            return
+        exes.append((tag, exe))
     model = os.path.join(C.OCAML, "driver_c07.exe")
     if replay is not None:
         hists = [[tuple(int(x) if x.lstrip("-").isdigit() else x for x in grp) for grp in replay["ops"]]]
@@ -217,75 +220,77 @@ def check(run, replay=None):
             hists.append(h)
     lines = [text(h) for h in hists]
     inp = "\n".join(lines) + "\n"
-    rc, io, se = C.sh("ASAN_OPTIONS=detect_leaks=1 " + exe, inp=inp, timeout=900)
     rcm, mo, _ = C.sh(model, inp=inp, timeout=900)
-    io, mo = io.split("\n"), mo.split("\n")
+    mo = mo.split("\n")
     cov = run.coverage
-    if rc != 0:
-        k = min(len([x for x in io if x.strip()]), len(hists) - 1)
-        h = list(hists[k])
-
-        def crashes(hh):
-            r, o, e = C.sh("ASAN_OPTIONS=detect_leaks=1 " + exe, inp=text(hh) + "\n", timeout=60)
-            return r != 0, e
-        if crashes(h)[0]:
-            changed = True
-            while changed and len(h) > 1:
-                changed = False
-                for d in range(len(h)):
-                    cand = h[:d] + h[d + 1:]
-                    if crashes(cand)[0]:
-                        h, changed = cand, True
-                        break
-        _, e = crashes(h)
-        run.finding("crash", "counterexample", "life-cycle history [%s] crashes (double free / use after free / leak reported by ASan): %s"
-                    % (text(h)[:300], [x for x in e.split("\n") if "ERROR" in x or "SUMMARY" in x][:2]), {"ops": [list(map(str, t)) for t in h]})
-        # carry on with the histories after the crashing one
-        rest = lines[k + 1:]
-        if rest:
-            rc3, io3, se3 = C.sh("ASAN_OPTIONS=detect_leaks=1 " + exe, inp="\n".join(rest) + "\n", timeout=900)
-            io = io[:k] + [""] + io3.split("\n")
     nontriv = set()
-    for h, l, a, b in zip(hists, lines, mo, io):
-        cov["evaluations"] += 1
-        if not b.strip():
-            continue
-        steps, tail = parse_steps(b)
-        want = spec_output(h)
-        payload = {"ops": [list(map(str, t)) for t in h]}
-        # (1) the property, from the specification alone
-        bad = None
-        for k, (s, w) in enumerate(zip(steps, want)):
-            if s != w:
-                bad = (k, s, w)
-                break
-        if bad is None and "leak=0" not in tail:
-            run.finding("spec:leak", "counterexample", "history [%s]: library-owned data not released after all arrays were destroyed (%s)" % (l[:300], tail.strip()), payload)
-            continue
-        if bad is not None:
-            k, s, w = bad
-            opn = h[k][0]
-            run.finding("spec:%s" % opn, "counterexample",
-                        "history [%s]: after step %d (%s) the implementation shows [%s] but sharing/copy semantics require [%s]" % (l[:300], k, " ".join(map(str, h[k])), s, w), payload)
-            continue
-        if any(t[0] in ("C", "S", "L") for t in h) and any(t[0] in ("A", "MO", "MX", "MS") for t in h):
-            nontriv.add(l)
-        # (2) correspondence with the Coq model
-        msteps, mtail = parse_steps(a)
-        if msteps != steps:
-            kk = next((k for k, (x, y) in enumerate(zip(msteps, steps)) if x != y), min(len(msteps), len(steps)))
-            run.finding("correspondence:storage", "broken-obligation", "Storage.v and adept::Array disagree at step %d of [%s]: model [%s] impl [%s]"
-                        % (kk, l[:300], msteps[kk] if kk < len(msteps) else "", steps[kk] if kk < len(steps) else ""), payload)
-        elif "faults=0" not in mtail:
-            run.finding("model:fault", "broken-obligation", "the model reports a link operation on freed storage for [%s]" % l[:300], payload)
+    for tag, exe in exes:
+        rc, io, se = C.sh("ASAN_OPTIONS=detect_leaks=1 " + exe, inp=inp, timeout=900)
+        io = io.split("\n")
+        if rc != 0:
+            k = min(len([x for x in io if x.strip()]), len(hists) - 1)
+            h = list(hists[k])
+
+            def crashes(hh):
+                r, o, e = C.sh("ASAN_OPTIONS=detect_leaks=1 " + exe, inp=text(hh) + "\n", timeout=60)
+                return r != 0, e
+            if crashes(h)[0]:
+                changed = True
+                while changed and len(h) > 1:
+                    changed = False
+                    for d in range(len(h)):
+                        cand = h[:d] + h[d + 1:]
+                        if crashes(cand)[0]:
+                            h, changed = cand, True
+                            break
+            _, e = crashes(h)
+            run.finding("crash", "counterexample", "(" + tag + " build) life-cycle history [%s] crashes (double free / use after free / leak reported by ASan): %s"
+                        % (text(h)[:300], [x for x in e.split("\n") if "ERROR" in x or "SUMMARY" in x][:2]), {"ops": [list(map(str, t)) for t in h]})
+            # carry on with the histories after the crashing one
+            rest = lines[k + 1:]
+            if rest:
+                rc3, io3, se3 = C.sh("ASAN_OPTIONS=detect_leaks=1 " + exe, inp="\n".join(rest) + "\n", timeout=900)
+                io = io[:k] + [""] + io3.split("\n")
+        for h, l, a, b in zip(hists, lines, mo, io):
+            cov["evaluations"] += 1
+            if not b.strip():
+                continue
+            steps, tail = parse_steps(b)
+            want = spec_output(h)
+            payload = {"ops": [list(map(str, t)) for t in h]}
+            # (1) the property, from the specification alone
+            bad = None
+            for k, (s, w) in enumerate(zip(steps, want)):
+                if s != w:
+                    bad = (k, s, w)
+                    break
+            if bad is None and "leak=0" not in tail:
+                run.finding("spec:leak", "counterexample", "(" + tag + " build) history [%s]: library-owned data not released after all arrays were destroyed (%s)" % (l[:300], tail.strip()), payload)
+                continue
+            if bad is not None:
+                k, s, w = bad
+                opn = h[k][0]
+                run.finding("spec:%s" % opn, "counterexample",
+                            "(" + tag + " build) history [%s]: after step %d (%s) the implementation shows [%s] but sharing/copy semantics require [%s]" % (l[:300], k, " ".join(map(str, h[k])), s, w), payload)
+                continue
+            if any(t[0] in ("C", "S", "L") for t in h) and any(t[0] in ("A", "MO", "MX", "MS") for t in h):
+                nontriv.add(l)
+            # (2) correspondence with the Coq model
+            msteps, mtail = parse_steps(a)
+            if msteps != steps:
+                kk = next((k for k, (x, y) in enumerate(zip(msteps, steps)) if x != y), min(len(msteps), len(steps)))
+                run.finding("correspondence:storage", "broken-obligation", "Storage.v and adept::Array disagree at step %d of [%s]: model [%s] impl [%s]"
+                            % (kk, l[:300], msteps[kk] if kk < len(msteps) else "", steps[kk] if kk < len(steps) else ""), payload)
+            elif "faults=0" not in mtail:
+                run.finding("model:fault", "broken-obligation", "the model reports a link operation on freed storage for [%s]" % l[:300], payload)
     cov["distinct_nontrivial"] = len(nontriv)
     cov["samples"] = [{"history": lines[0]}, {"history": lines[len(lines) // 2]}]
     cov["rule"] = ("histories of sized/default/copy/slice/soft-link/external-buffer construction, link, copy assignment, move assignment from an owning temporary, from a temporary on "
-                   "external memory and from an rvalue slice, resize, clear, destruction and element writes over a pool of 6 Vectors and 2 external buffers; random (3-40 operations) plus all "
+                   "external memory and from an rvalue slice, resize, clear, destruction and element writes over a pool of 6 Vectors and 2 external buffers, and the same histories on n x 1 Matrix objects (Array<2> constructors, row-range slices, resize(n,1)); random (3-40 operations) plus all "
                    "combinations of 6 construction kinds x 6 assignment kinds x 5 continuations; after every operation n_storage_objects(), every array's length, link count and values and "
                    "the external buffers are compared with a Python specification (share on construction/link/slice, copy on '=') and with the Coq model; ASan with leak detection. "
                    "Non-trivial = history with both a sharing operation and an assignment.")
     cov["traces_validated_against_impl"] = cov["evaluations"]
-    run.assumptions += ["rank-1 arrays and contiguous views (higher ranks share the same constructors and Storage code)",
+    run.assumptions += ["rank-1 arrays and n x 1 matrices, contiguous views (the model is rank-agnostic: element counts and link counts)",
                         "histories never free data that a soft link still addresses (user responsibility by the documentation)",
                         "FixedArray and SpecialMatrix objects use the same Storage link protocol; not in the harness"]
